@@ -28,6 +28,7 @@ def trM : Nat → Val → Option Val
   | 2, .int n => some (.str (intDigits n))
   | 3, .struct [.uint x, .uint y] => some (.bytes (some [x, y]))
   | 4, .struct [l] => some l
+  | 5, .struct [v] => some (.struct [v])
   | _, _ => none
 
 def trU : Nat → Val → Option Val
@@ -35,6 +36,7 @@ def trU : Nat → Val → Option Val
   | 2, .str s => (parseInt64 s).map .int
   | 3, .bytes (some [x, y]) => some (.struct [.uint x, .uint y])
   | 4, l => some (.struct [l])
+  | 5, .struct [v] => some (.struct [v])
   | _, _ => none
 
 def trLib : Trs := ⟨trM, trU⟩
